@@ -49,6 +49,15 @@ Ip4El(n, ver, ihl, dscp, ecn, flags, frag, proto, tag, dl) ==
   El(n, t, pay.ops \o <<New(n, "NewIPv4", <<>>)>> \o SetAll(n, t, <<"Version", "IHL", "DSCP", "ECN", "Length", "Id", "Flags", "FragmentOffset", "TTL",
                                                                     "Protocol", "Checksum", "NWSrc", "NWDst">>)
        \o <<Set(n, "Options", t.Options.B), Set(n, "Data", Ref(pay.n))>>)
+\* IPv4 carrying the given bytes as opaque payload of protocol proto
+Ip4Raw(n, proto, bytes, tag) ==
+  LET e == Ip4El(n, 4, 5, 0, 0, 0, 0, proto, tag, 0)
+      pay == BufEl(Nm(n, 1), bytes) IN
+  El(n, [e.tree EXCEPT !.Data = pay.tree, !.Length = BE16(20 + Len(bytes))],
+     pay.ops \o SelectSeq(e.ops, LAMBDA o : ~(o.op = "new" /\ o.as = Nm(n, 1)) /\ ~(o.op = "set" /\ o.f = "Length"))
+       \o <<Set(n, "Length", BE16(20 + Len(bytes)))>>)
+\* an option whose Data is left unset (nil): the encoder zero-fills the declared length (PadN built by its length only)
+OptNilEl(n, type, len) == El(n, [T |-> "Option", Type |-> <<type>>, Length |-> <<len>>, Data |-> <<>>], <<NewT(n, "Option"), Set(n, "Type", <<type>>), Set(n, "Length", <<len>>)>>)
 OptEl(n, type, len, tag) == LET t == [T |-> "Option", Type |-> <<type>>, Length |-> <<len>>, Data |-> V(tag, len)] IN
   El(n, t, <<NewT(n, "Option")>> \o SetAll(n, t, <<"Type", "Length", "Data">>))
 \* hop-by-hop header holding nopt options of 4 data bytes (6 bytes each) padded by a PadN option to the 8-byte unit
@@ -225,6 +234,19 @@ NextEXT == \E hel \in Hels, tag \in {3, 80} :
              \/ /\ c' = <<"ip6rt", hel, tag>> /\ LET rt == RtEl("r", 58, hel, tag) IN Emit("EXT", Ip6With("i", <<>>, <<rt>>, 43, 58, tag, 5), <<rt>>)
              \/ /\ c' = <<"ip6both", hel, tag>>
                 /\ LET hb == HbhBig("h", 43, hel, tag)  rt == RtEl("r", 6, 255 - hel, tag) IN Emit("EXT", Ip6With("i", <<hb>>, <<rt>>, 0, 6, tag, 5), <<hb, rt>>)
+\* hop-by-hop headers as applications build them: a PadN given by its length only in front of other options; a header longer than
+\* its options need (the rest is implicit Pad1 zero bytes).  Encodable (C06, C13); not round-trip values (the decoder materialises the padding)
+HbhLooseOpts(n, variant, tag) == IF variant = "nildata" THEN <<OptNilEl(Nm(n, 1), 1, 4), OptEl(Nm(n, 2), 5, 2, tag), OptNilEl(Nm(n, 3), 1, 2)>>
+                                 ELSE <<OptEl(Nm(n, 1), 5, 2, tag)>>
+HbhLooseEl(n, next, variant, tag) ==
+  LET opts == HbhLooseOpts(n, variant, tag)
+      hel == IF variant = "nildata" THEN 1 ELSE 2
+      t == [T |-> "HopByHopHeader", NextHeader |-> <<next>>, HEL |-> <<hel>>, Options |-> TreesOf(opts)] IN
+  El(n, t, OpsOf(opts) \o <<New(n, "NewHopByHopHeader", <<>>), Set(n, "NextHeader", <<next>>), Set(n, "HEL", <<hel>>), Set(n, "Options", RefsOf(opts))>>)
+NextHX == \E variant \in {"nildata", "slack"}, inip \in BOOLEAN, tag \in {3, 80} :
+            /\ c' = <<"hx", variant, inip, tag>>
+            /\ LET hb == HbhLooseEl("h", 17, variant, tag) IN
+               IF inip THEN Emit("HX", Ip6With("i", <<hb>>, <<>>, 0, 17, tag, 5), <<hb>>) ELSE Emit("HX", hb, HbhLooseOpts("h", variant, tag))       \* the options' own encodings must appear in the header whole and in order
 DhcpTreeN(tag, hlen, opts, sn, fl) ==
   [T |-> "DHCP", Operation |-> <<1 + (tag % 2)>>, HardwareType |-> <<1>>, HardwareLen |-> <<hlen>>, HardwareOpts |-> <<0>>, Xid |-> V(tag, 4), Secs |-> V(tag + 1, 2),
    Flags |-> <<128, 0>>, ClientIP |-> V(tag + 2, 4), YourIP |-> V(tag + 3, 4), ServerIP |-> V(tag + 4, 4), GatewayIP |-> V(tag + 5, 4),
@@ -326,6 +348,6 @@ NextBASE == \/ /\ c' = <<"lldp">>
                  /\ PrintT(ToJson([entry |-> "DHCPOptions", kind |-> "DHCPOptions", frame |-> Flat([i \in DOMAIN ol |-> EncDhcpOpt(ol[i])]) \o <<255>>]))
 Init == c = <<>>
 Next == c = <<>> /\ CASE Family = "VLAN" -> NextVLAN [] Family = "ETH" -> NextETH [] Family = "IP4" -> NextIP4 [] Family = "IP6" -> NextIP6
-                      [] Family = "FRAG" -> NextFRAG [] Family = "TCP" -> NextTCP [] Family = "L4" -> NextL4 [] Family = "IGMP" -> NextIGMP [] Family = "BASE" -> NextBASE [] Family = "EXT" -> NextEXT [] Family = "DL" -> NextDL [] Family = "DC" -> NextDC
+                      [] Family = "FRAG" -> NextFRAG [] Family = "TCP" -> NextTCP [] Family = "L4" -> NextL4 [] Family = "IGMP" -> NextIGMP [] Family = "BASE" -> NextBASE [] Family = "EXT" -> NextEXT [] Family = "DL" -> NextDL [] Family = "DC" -> NextDC [] Family = "HX" -> NextHX
 Spec == Init /\ [][Next]_c
 =============================================================================
